@@ -498,16 +498,47 @@ func checkConcurrent(c Case, o *vf.Obs) error {
 	return nil
 }
 
+// Findings of this check (see /verif/known_findings.json).
+const (
+	// a request header named exactly `url` or `body` shares the template-cache key of the URI / body template
+	findingTemplateKey = "scenario-templater-cache-key-collision"
+)
+
+func hasSpecialHeader(p *si.Program) bool {
+	for _, r := range p.Requests {
+		for _, h := range r.Headers {
+			if h.Name == "url" || h.Name == "body" {
+				return true
+			}
+		}
+	}
+	return false
+}
+
+// steer moves a generated case away from the listed findings (counted as excluded).
+func steer(r *vf.Run, c Case) Case {
+	if r.IsKnown(findingTemplateKey) && hasSpecialHeader(&c.Prog) {
+		r.Excluded(findingTemplateKey)
+		for i := range c.Prog.Requests {
+			for j := range c.Prog.Requests[i].Headers {
+				h := &c.Prog.Requests[i].Headers[j]
+				if h.Name == "url" || h.Name == "body" {
+					h.Name = "X-" + h.Name
+				}
+			}
+		}
+	}
+	return c
+}
+
 func TestScenarioExecution(t *testing.T) {
 	pand.Init()
 	r := vf.Start(t, "C15")
-	vf.Check(r, genCase, checkSeq)
+	vf.Check(r, func(t *rapid.T) Case { return steer(r, genCase(t)) }, checkSeq)
 }
 
 func TestNextAcrossInstances(t *testing.T) {
 	pand.Init()
 	r := vf.Start(t, "C15")
-	vf.Check(r, genConcurrentCase, checkConcurrent)
+	vf.Check(r, func(t *rapid.T) Case { return steer(r, genConcurrentCase(t)) }, checkConcurrent)
 }
-
-var _ = rapid.Bool
